@@ -36,4 +36,11 @@ def existsTxAnswer (notFound : Nat) (r : Option (Tx × BlockMeta)) : List Nat :=
   | some (t, _) => [1, 1, 0, 0, t.outs.length]
   | none => [0, 0, notFound, 1, 0]
 
+/-- what `existsUnminedTx` reads of `w.txStore.ExistUnminedTx(hash)`: [prevTx ≠ nil, error id, len(prevTx.TxOut)],
+    from the pending table of the store -/
+def existUnminedAnswer (notFound : Nat) (r : Option Tx) : List Nat :=
+  match r with
+  | some t => [1, 0, t.outs.length]
+  | none => [0, notFound, 0]
+
 end MW.Model.ApiLedger
